@@ -19,7 +19,7 @@ register(
         "GtModel.C17.search_bounds_sound",
         "GtModel.C17.search_reach",
     ],
-    streams=["bounded"],
+    streams=["bounded", "bounded_O"],
     assumptions=[
         "items follow the Bounded protocol as finite trajectories: nested, strictly shrinking ranges ending in a point "
         "(ValidSt); IterativeTighteningSearch is used with the default initial_bounds (graphtage never passes one)",
